@@ -158,6 +158,9 @@ class BaseNode(Node):
         if isinstance(value, (IntegerType, FloatType)):
             value.unit = node.units_raw
             value.convert(self.units_raw, env)
+            if isinstance(value, IntegerType) and value.value is not None:
+                # the conversion works with floats: an integer node keeps integer values, rounded as integer expressions are
+                value.value = np.round(value.value).astype(int).tolist()
         if value.value is None:   # the node is set to none, its type and units stay
             if isinstance(value, (IntegerType, FloatType)):
                 value.unit = self.units_raw
